@@ -1,11 +1,29 @@
 """Plain-interpreter replay of a CrossHair counterexample: python -m vflib.replay C06 "h_x(1, True)".
 rc 1 = the harness assertion (or an exception) reproduces on the real code without any symbolic machinery; 0 = it does not."""
-import sys, traceback
+import os, subprocess, sys, traceback
 from vflib.runner import load_module
 from vflib import hutil
 
 
 def main():
+    rc = _main()
+    if rc == 1 and os.environ.get("VF_BACKEND") != "real":
+        pid = sys.argv[1]
+        mod, _ = load_module(pid)
+        if getattr(mod, "E2", False):
+            # E2: the counterexample was found on the MemFS model -> it must also reproduce on the real file system (tmpfs)
+            e = dict(os.environ)
+            e["VF_BACKEND"] = "real"
+            p = subprocess.run([sys.executable, "-m", "vflib.replay"] + sys.argv[1:], env=e, capture_output=True, text=True)
+            print("--- replay on the real file system (RealFS back end) ---")
+            print((p.stdout + p.stderr)[-1500:])
+            if p.returncode != 1:
+                print("replay: reproduces on MemFS but NOT on the real file system -> model or harness error, not a violation")
+                return 5
+    return rc
+
+
+def _main():
     pid, call = sys.argv[1], sys.argv[2]
     mod, _ = load_module(pid)
     ns = dict(vars(mod))
